@@ -17,7 +17,7 @@ TECHNIQUE = ('generated programs (and the repository Fortran corpus) read with t
              'SubstituteExpressions under the documented invalidation protocol; oracles: text identity, "every top-most VALID '
              'node is written with its original lines, in order, nothing in between", edit markers present once, and gfortran '
              'differential execution conservative output vs. standard fgen output of the same edited IR')
-RULE = ('(a) FProg programs (fprog.gen, full layout variation) + 0-4 edits; an edit picks a unit (module, module procedure, '
+RULE = ('(a) FProg programs (fprog.gen, full layout variation) + 0-5 edits; an edit picks a unit (module, module procedure, '
         'internal procedure), an operation (replace by a source-less clone / by a PRINT / assignment by a literal assignment, '
         'insert a comment or PRINT before/after, delete, substitute one local scalar by another with SubstituteExpressions, '
         'insert a comment into a specification part) and a target among the Assignment / CALL / PRINT / Comment / IF / DO / '
@@ -137,7 +137,7 @@ def sanitise(case, active):
     return counts
 
 
-OPS = ['replace', 'replace', 'replace', 'insert', 'insert', 'delete', 'delete', 'subst', 'spec_comment']
+OPS = ['replace', 'replace', 'replace', 'insert', 'insert', 'delete', 'delete', 'subst', 'subst', 'spec_comment']
 
 
 @st.composite
@@ -165,7 +165,7 @@ def cases(draw, active=()):
     if counts:
         case['excluded'] = counts
     # kernel is the last unit: bias the unit choice towards it by drawing larger indices more often
-    case['edits'] = draw(edits(0 if draw(st.integers(0, 9)) == 0 else 1, 4))
+    case['edits'] = draw(edits(0 if draw(st.integers(0, 14)) == 0 else 1, 5))
     return case
 
 
@@ -264,9 +264,11 @@ def check_source(text, case, ctx, active, prog=None, spans=None, classes=()):
     classes += [f'trigger:{t}' for t in trig]
     classes.append('valid-nodes-kept' if nvalid else 'nothing-valid-left')
     ctx.case(case, nontrivial, classes)
-    # ---- (iv) no node keeps a VALID source above a new or invalidated node
+    # ---- (iv) no node keeps a VALID source above a new or invalidated node, or with other variables than its expressions
     for cls, detail in ce.stale_valid_nodes(sf, sourceless):
         ctx.fail(f'C03:valid-source-above-modified-node:{cls}', case, detail)
+    for cls, name, line in ce.unmentioned_variables(sf):
+        ctx.fail(f'C03:valid-source-text-lacks-variable-of-node:{cls}', case, f'line {line}: the node refers to {name!r}, its VALID source does not')
     # ---- write
     try:
         cons = sf.to_fortran(conservative=True)
